@@ -24,6 +24,20 @@ def _nt(rec):
     return rec["out"] == "consensus" and ac.n_elems(rec) >= 2 and rec["rep"][0] > 0
 
 
+def handbuilt_cases(dss, rng):
+    """Consensus objects built by hand (one candidate ranking over the universe, the dataset and the scheme): the score
+    is computed on demand; several objects are built one after the other in the same process"""
+    from .C01 import random_order
+    out = []
+    for k, D in enumerate(dss):
+        U = grids.universe(D)
+        for j in range(2):
+            out.append({"D": D, "naming": ["ints", "letters", "weird"][k % 3], "sch": list(SCHEMES[(k + j) % len(SCHEMES)]),
+                        "cfg": "HandBuilt", "flag": 1, "env": "nocplex", "kseed": k, "entry": k % 4,
+                        "cands": [random_order(rng, U)]})
+    return out
+
+
 def stages(tier, rng, only=None):
     out = [ac.stage("grid3x2", PID, lambda: ac.cases(grids.datasets(3, 2), algorun.ALL_CONFIGS, SCHEMES,
                                                      namings=["ints", "letters", "weird"], every=COSTLY), _nt)]
@@ -52,6 +66,8 @@ def stages(tier, rng, only=None):
     out.append(ac.stage("majority_lookalikes", PID, lambda: ac.cases(
         ac.majority_datasets(), ["PickAPerm", "Bio[PickAPerm]", "Bio[PickAPerm,Copeland]", "BioConsert", "Borda"],
         [ac.P_UNI1, ac.P_UNI5, ac.P_PSE1], flags=(0, 1), namings=["weird", "weird", "letters"], all_schemes=True), _nt))
+    out.append(ac.stage("handbuilt_consensus", PID, lambda: handbuilt_cases(
+        grids.datasets(3, 2)[::2] + [ac.random_dataset(rng, 6, 5, nmin=2) for _ in range(n_rand)], rng), _nt))
     out.append(ac.stage("tiny_penalties", PID, lambda: ac.cases(
         [ac.random_dataset(rng, 6, 6, nmin=3) for _ in range(n_rand)] + g[::7], algorun.ALL_CONFIGS, ac.TINY,
         flags=(0, 1), every={k: 4 * v for k, v in COSTLY.items()}), _nt))
